@@ -197,16 +197,29 @@ def exc_code(e):
     return Err(199, type(e).__name__ + ": " + str(e)[:80])
 
 
+def in_model(kind, case):
+    return case[0] != 2
+
+
 def impl(case):
+    if case[0] == 2:  # replay of one reported immutability failure
+        fs = c11_immut.replay(case)
+        return [len(fs), [f["what"] + " " + " ".join(f.get("args", [])) for f in fs[:5]]]
     kind, ops = case
-    r = Run(kind)
+    try:
+        r = Run(kind)
+    except Exception as e:  # noqa
+        return Err(198, "constructing the zone raised " + type(e).__name__ + ": " + str(e)[:80])
     out = []
     for op in ops:
         try:
             res = r.step(op)
         except Exception as e:  # noqa
             res = exc_code(e)
-        out.append([res, r.view()])
+        try:
+            out.append([res, r.view()])
+        except Exception as e:  # noqa
+            return Err(197, "observing the zone raised " + type(e).__name__ + ": " + str(e)[:80])
     return out
 
 
@@ -365,6 +378,10 @@ def oracle(ctx, kind, case, out):
 
     if isinstance(out, Err):
         fail("history runner failed: " + out.text, -1)
+        return F
+    if case[0] == 2:
+        if out[0]:
+            fail("immutability: " + "; ".join(x.decode("latin-1") if isinstance(x, bytes) else str(x) for x in out[1]), -1)
         return F
     zk, ops = case
     history = [1]              # every id ever committed, in order
